@@ -62,6 +62,14 @@ Theorem c07_acyclic : forall g s cnt, Inv g s cnt -> stable g s ->
 Proof. exact reconstruct_total. Qed.
 Print Assumptions c07_acyclic.
 
+(** The hypotheses of [c07_acyclic] are what the relaxation loop establishes: its result satisfies
+    the loop invariant (every entry is witnessed by a term and by a row snapshot with older ranks)
+    and is a fixpoint of relaxation. *)
+Theorem c07_loop_result : forall g fuel s cnt,
+  bellman_ford fuel g empty_cs 0 = Ok (s, cnt) -> Inv g s cnt /\ stable g s.
+Proof. intros g fuel s cnt H. exact (bellman_ford_ok g fuel _ _ _ _ (inv_empty g) H). Qed.
+Print Assumptions c07_loop_result.
+
 (** c07_total ("a class that has an allowed term is always extracted") is FALSE for the faithful
     model: under cost saturation the rank guard leaves a class without parent edge and the code
     panics at src/extract.rs:491 (finding F4).  Witness = [f4_graph], root class 2. *)
